@@ -118,6 +118,10 @@ pub struct WCfg {
     pub reorder_delivery: bool,
     pub seed: Seed,
     pub probe: bool,
+    /// default resolution of a part is failure (pay fails on the default path)
+    pub default_part_fails: bool,
+    /// C13 differential: request labels of the baseline run (same scenario without the pass-through HTLCs)
+    pub baseline_reqs: Option<Vec<String>>,
     pub max_depth: usize,
     /// properties whose oracles are evaluated (others are monitored silently off)
     pub props: BTreeSet<&'static str>,
@@ -155,6 +159,8 @@ impl WCfg {
             reorder_delivery: true,
             seed: Seed::default(),
             probe: false,
+            default_part_fails: false,
+            baseline_reqs: None,
             max_depth: 90,
             props: BTreeSet::new(),
         }
@@ -274,6 +280,8 @@ struct HashMon {
     paying_set: Vec<usize>,
     /// C04/C07: HTLCs that triggered a rejection while their set was incomplete and nothing was live
     poisoned: Vec<usize>,
+    /// per poisoned HTLC: (template, reason mask 1=conflict 2=low expiry 4=low total, first of its set)
+    poison_info: Vec<(usize, u8, bool)>,
     /// C04: (min expiry of the funding set, height told) when the held set first became fully funded
     funded_at: Option<(u32, u32)>,
     /// C11: virtual time (ms) at which the plugin last received an RPC answer concerning this hash
@@ -314,6 +322,7 @@ pub struct W {
     err: Option<String>,
     in_probe: bool,
     free_choice: bool,
+    req_labels: Vec<String>,
     steps: usize,
 }
 
@@ -426,6 +435,7 @@ impl W {
             m.pays_this_inc = 0;
             m.paying_set.clear();
             m.poisoned.clear();
+            m.poison_info.clear();
             m.funded_at = None;
             m.last_answer_ms = None;
             m.read_free_at = None;
@@ -558,15 +568,25 @@ impl W {
             // 3. part resolutions
             for (i, part) in s.parts.iter().enumerate() {
                 if part.status == PartStatus::Pending {
-                    free.push((
+                    let complete = (
                         Ev::Resolve(i, PartStatus::Complete),
                         format!("Part(g{}.p{}@{},Complete)", part.groupid, part.partid, &part.hash[..4]),
-                    ));
-                    for code in &cfg.fail_codes {
-                        alts.push((
+                    );
+                    if cfg.default_part_fails {
+                        alts.push(complete);
+                    } else {
+                        free.push(complete);
+                    }
+                    for (n, code) in cfg.fail_codes.iter().enumerate() {
+                        let e = (
                             Ev::Resolve(i, PartStatus::Failed(*code)),
                             format!("Part(g{}.p{}@{},Fail{})", part.groupid, part.partid, &part.hash[..4], code),
-                        ));
+                        );
+                        if cfg.default_part_fails && n == 0 {
+                            free.push(e);
+                        } else {
+                            alts.push(e);
+                        }
                     }
                 }
             }
@@ -740,6 +760,7 @@ impl W {
             .map(|h| (h.clone(), self.sim.with(|s| (s.any_pending(h), s.any_complete(h), s.running_pay(h).is_some()))))
             .collect();
         for r in &reqs {
+            self.req_labels.push(r.label.clone());
             self.view.add(&("req", &r.label, r.params.to_string()));
             self.trace.push(format!("  plugin -> {} {}", r.label, compact(&r.params)));
         }
@@ -767,6 +788,12 @@ impl W {
             self.violate("C06", "no-panic", format!("panic: {}", short), p.replace('\n', " | "));
         }
         self.last_step_responses.clear();
+        if let Ev::Deliver(t) = ev {
+            if self.cfg.templates[*t].class == Class::NotTrampoline && !reqs.is_empty() {
+                let d = format!("{} caused {:?}", self.cfg.templates[*t].spec.name, reqs.iter().map(|r| r.label.clone()).collect::<Vec<_>>());
+                self.violate("C13", "no-side-effects", "delivery of a non-trampoline HTLC caused an RPC call".into(), d);
+            }
+        }
         // oracles on requests first (they precede responses causally only for different hashes)
         for r in &reqs {
             self.on_request(r);
@@ -896,18 +923,27 @@ impl W {
             Some(a) => {
                 if req_amount.is_some() {
                     self.violate("C03", "amount-param", "amount_msat passed for a fixed-amount invoice".into(), compact(&r.params));
+                    self.violate("C10", "declared-amount", "amount_msat passed for a fixed-amount invoice".into(), compact(&r.params));
                 }
                 a
             }
             None => {
                 match (req_amount, declared) {
                     (Some(a), Some(d)) if a == d => {}
-                    _ => self.violate(
-                        "C03",
-                        "amount-param",
-                        "amountless invoice paid with an amount other than the sender-declared one".into(),
-                        format!("request {:?} declared {:?}", req_amount, declared),
-                    ),
+                    _ => {
+                        self.violate(
+                            "C03",
+                            "amount-param",
+                            "amountless invoice paid with an amount other than the sender-declared one".into(),
+                            format!("request {:?} declared {:?}", req_amount, declared),
+                        );
+                        self.violate(
+                            "C10",
+                            "declared-amount",
+                            "amountless invoice paid with an amount other than the sender-declared one".into(),
+                            format!("request {:?} declared {:?}", req_amount, declared),
+                        );
+                    }
                 }
                 req_amount.or(declared).unwrap_or(0)
             }
@@ -1066,7 +1102,38 @@ impl W {
         if poisoned && !rs.starts_with("fail:") && !complete {
             self.violate("C07", "rejected-set-fails", "an HTLC that triggered a rejection was not failed".into(), format!("{} => {}", name, short_resp(rs)));
         }
-        // C12 third sentence + C19: fee-or-expiry failure carries the configured policy
+        // C12 third sentence: the first HTLC of a payment with no earlier attempt on record is answered
+        // with fee-or-expiry-insufficient if its declared total / relative expiry is too low
+        if self.has("C12") && cfg.mpp_timeout_ms > 0 {
+            let info = self.mon.get(&hash).and_then(|m| m.poison_info.iter().find(|p| p.0 == t).cloned());
+            if let Some((_, mask, true)) = info {
+                let ever = self.sim.with(|s| s.parts.iter().any(|p| p.hash == hash) || s.pays.iter().any(|c| c.hash == hash));
+                if mask & 1 == 0 && mask & 6 != 0 && !ever && self.durable_kind(&hash) == "Free" && !rs.starts_with("fail:201a") {
+                    self.violate(
+                        "C12",
+                        "first-htlc-rejected-with-policy",
+                        "first HTLC with too low declared total / relative expiry not answered with fee-or-expiry-insufficient".into(),
+                        format!("{} => {}", name, short_resp(rs)),
+                    );
+                }
+            }
+        }
+        // C13: a rewritten payload only drops record 16
+        if let Some(p) = rs.strip_prefix("continue:") {
+            let req = tpl.spec.request(self.sim.with(|s| s.height));
+            let all = crate::engine_i::lenient_parse_pub(&crate::tlv::ToBytes::to_bytes(req.onion.payload.clone()));
+            let want: Vec<(u64, Vec<u8>)> = all.into_iter().filter(|r| r.0 != 16).collect();
+            let want = crate::engine_i::ref_encode_stream(&want);
+            if hex::encode(&want) != p {
+                self.violate(
+                    "C13",
+                    "rewrite-only-drops-metadata",
+                    "rewritten onion payload differs from the input minus the payment-metadata record".into(),
+                    format!("{} got {} want {}", name, short_resp(p), short_resp(&hex::encode(&want))),
+                );
+            }
+        }
+        // C12 / C19: fee-or-expiry failure carries the configured policy
         if let Some(msg) = rs.strip_prefix("fail:") {
             if msg.starts_with("201a") {
                 let mut want = String::from("201a");
@@ -1397,6 +1464,8 @@ impl W {
         if rejecting && !funded_before && !live {
             // stored state may say a payment already succeeded: then settling is right; handled by `complete` at response time
             m.poisoned.push(t);
+            let mask = (conflict as u8) | ((low_expiry as u8) << 1) | ((low_total as u8) << 2);
+            m.poison_info.push((t, mask, held.is_empty()));
         }
     }
 
@@ -1488,15 +1557,17 @@ impl Model for W {
         let mut infos = BTreeMap::new();
         let mut mon = BTreeMap::new();
         for inv in &cfg.invoices {
-            let invoice: lightning_invoice::Bolt11Invoice = inv.bolt11.parse().expect("scenario invoice parses");
-            let payee = invoice.recover_payee_pub_key();
-            infos.entry(inv.hash_hex.clone()).or_insert(TrampolineInfo {
-                bolt11: inv.bolt11.clone(),
-                payee,
-                amount_msat: inv.amount_msat.unwrap_or(0),
-                routing_policy: cfg.policy(),
-                invoice,
-            });
+            // an invoice whose signature does not verify does not parse; it can never be stored or paid
+            if let Ok(invoice) = inv.bolt11.parse::<lightning_invoice::Bolt11Invoice>() {
+                let payee = invoice.recover_payee_pub_key();
+                infos.entry(inv.hash_hex.clone()).or_insert(TrampolineInfo {
+                    bolt11: inv.bolt11.clone(),
+                    payee,
+                    amount_msat: inv.amount_msat.unwrap_or(0),
+                    routing_policy: cfg.policy(),
+                    invoice,
+                });
+            }
             mon.entry(inv.hash_hex.clone()).or_insert_with(HashMon::default);
         }
         for t in &cfg.templates {
@@ -1530,6 +1601,7 @@ impl Model for W {
             err: None,
             in_probe: false,
             free_choice: false,
+            req_labels: Vec::new(),
             steps: 0,
         };
         w.boot();
@@ -1604,6 +1676,28 @@ impl Model for W {
                 }
             }
         }
+        // C13 differential: after the pass-through HTLCs the same hash behaves as from the initial state
+        if let Some(base) = &cfg.baseline_reqs {
+            // getinfo polls depend on elapsed time only; compare the payment-related requests
+            let mine: Vec<String> = self.req_labels.iter().filter(|l| !l.starts_with("getinfo")).cloned().collect();
+            let base: Vec<String> = base.iter().filter(|l| !l.starts_with("getinfo")).cloned().collect();
+            if mine != base {
+                self.violate(
+                    "C13",
+                    "retains-no-state",
+                    "after a pass-through HTLC a payment for the same hash behaves differently than from the initial state".into(),
+                    format!("requests {:?} baseline {:?}", mine, base),
+                );
+            }
+        }
+        // C10: failure notifications go to the key the invoice signature verifies against
+        let sent = self.inc.as_ref().map(|i| i.notify.sent.lock().unwrap().clone()).unwrap_or_default();
+        for (dest, hash) in sent {
+            let want = cfg.invoices.iter().find(|i| i.hash_hex == hash).map(|i| i.payee.clone());
+            if want.as_deref() != Some(dest.as_str()) {
+                self.violate("C10", "payee", "failure notification names a payee other than the invoice signer".into(), format!("dest {} want {:?}", dest, want));
+            }
+        }
         // C09 probe
         if cfg.probe && self.has("C09") {
             self.probe();
@@ -1627,9 +1721,41 @@ impl Model for W {
     fn machinery_error(&self) -> Option<String> {
         self.err.clone()
     }
+
+    fn nontrivial(&self) -> bool {
+        self.crashes + self.faults > 0
+    }
 }
 
 impl W {
+    /// Hand one request to the real `handle_htlc` and poll it exactly once.
+    /// Ok(Some(resp)) = ready on first poll; Ok(None) = pending; Err = panic message.
+    pub fn poll_htlc_once(&mut self, req: crate::messages::HtlcAcceptedRequest) -> Result<Option<HtlcAcceptedResponse>, String> {
+        let inc = self.inc.as_mut().unwrap();
+        let mgr = Arc::clone(&inc.mgr);
+        let _g = inc.rt.enter();
+        let r = std::panic::catch_unwind(std::panic::AssertUnwindSafe(|| {
+            let mut fut = Box::pin(async move { mgr.handle_htlc(&req).await });
+            let waker = futures::task::noop_waker();
+            let mut cx = Context::from_waker(&waker);
+            match fut.as_mut().poll(&mut cx) {
+                Poll::Ready(r) => Some(r),
+                Poll::Pending => None,
+            }
+        }));
+        match r {
+            Ok(v) => Ok(v),
+            Err(_) => {
+                let p = sched::take_panics();
+                Err(p.last().cloned().unwrap_or_else(|| "panic".into()).replace('\n', " | "))
+            }
+        }
+    }
+
+    pub fn request_labels(&self) -> Vec<String> {
+        self.req_labels.clone()
+    }
+
     fn label_of(&self, ev: &Ev) -> String {
         format!("{:?}", ev)
     }
